@@ -551,18 +551,18 @@ def exec_run(tier, seed, d):
                 if set(creds) == want_set:
                     stats['auth_agrees'] += 1
                 elif len(disagreements) < 20:
-                    disagreements.append({'case': cid, 'driver': dr['name'], 'what': 'credentials on the executed request differ from Sem/Request.v auth_plan_of',
+                    disagreements.append({'case': cid, 'props': ('C14',), 'driver': dr['name'], 'what': 'credentials on the executed request differ from Sem/Request.v auth_plan_of',
                                           'executed': sorted(creds), 'model': sorted(want_set), 'spec': spec})
         if dr['kind'] == 'call':
             m = model.get((cid, dr['name']))
             if m is None or not m.startswith('ok:'):
-                disagreements.append({'case': cid, 'driver': dr['name'], 'what': 'the model has no prediction', 'model': m, 'spec': spec})
+                disagreements.append({'case': cid, 'props': ('C03',), 'driver': dr['name'], 'what': 'the model has no prediction', 'model': m, 'spec': spec})
                 continue
             mt = bytes.fromhex(m[3:]).decode()
             if sort_body(mt) == sort_body(text):
                 stats['agree'] += 1
             elif len(disagreements) < 20:
-                disagreements.append({'case': cid, 'driver': dr['name'], 'what': 'executed request differs from Sem/Request.v run_operation',
+                disagreements.append({'case': cid, 'props': ('C03',), 'driver': dr['name'], 'what': 'executed request differs from Sem/Request.v run_operation',
                                       'executed': text, 'model': mt, 'args': dehex(dr['args']), 'spec': spec})
         else:
             # libninja's own example: one request to THAT operation
@@ -629,7 +629,7 @@ def exec_run(tier, seed, d):
                 if same:
                     sstats['model_agrees'] += 1
                 elif len(disagreements) < 20:
-                    disagreements.append({'case': cid, 'what': f'Sem/Serde.v serde_struct and real serde disagree on an instance of schema {schema} ({kind})',
+                    disagreements.append({'case': cid, 'props': ('C04',), 'what': f'Sem/Serde.v serde_struct and real serde disagree on an instance of schema {schema} ({kind})',
                                           'instance': js, 'serde': rr, 'model': mres if mres == 'rej' else bytes.fromhex(mres[3:]).decode(), 'spec': spec})
             sstats['instances'] += 1
             kk = kind.split(':')[0]
@@ -671,11 +671,14 @@ def run(prop, tier, seed, extra_props=(), also_hir=False, compile_layer=False, d
     cli_ok, cli_log = build_cli()
     ps = proof_side(prop)
     total = nontriv = files_equal = 0; feats = {}; samples = []; disagreements = []; oracle = []; known_seen = {}
-    hir_part = None; compile_part = None; det_part = None; exec_part = None; outside_view = []
+    hir_part = None; compile_part = None; det_part = None; exec_part = None; outside_view = []; emission_findings = set()
     if not (har_ok and drv_ok and cli_ok):
         out.violation('build', {'what': 'harness, driver or CLI build failed', 'logs': {**logs, 'cli': cli_log}}, no_input=True)
     else:
         total, nontriv, feats, samples, disagreements, findings, files_equal = emit_run(tier, seed, d)
+        # only these carry case ids of the emission run (the HIR, compile and execution layers number their own cases and
+        # decide known classes against the model themselves)
+        emission_findings = set((f[0], f[1], f[3]) for f in findings)
         outside_view = [x for x in disagreements if not in_view(prop, x)]
         disagreements = [x for x in disagreements if in_view(prop, x)]
         known_map = dict(KNOWN_CLASSES)
@@ -684,7 +687,7 @@ def run(prop, tier, seed, extra_props=(), also_hir=False, compile_layer=False, d
             for f in glob.glob(f'{d}/h*'):
                 os.remove(f)
             ht, hn, hf, hs, hd, hfind = hirprops.hir_run(prop, tier, seed, d)
-            hir_part = dict(evaluations=ht, distinct_nontrivial=hn, disagreements=len(hd))
+            hir_part = dict(evaluations=ht, distinct_nontrivial=hn, disagreements=len(hd), disagreements_outside_view=len(hirprops.OUTSIDE_VIEW))
             disagreements += [dict(x, level='HIR') for x in hd if x]
             findings += hfind
             known_map.update(hirprops.KNOWN_CLASSES)
@@ -705,7 +708,8 @@ def run(prop, tier, seed, extra_props=(), also_hir=False, compile_layer=False, d
         if exec_layer:
             xstats, xfind, xdis = exec_run(tier, seed, d)
             findings += xfind
-            disagreements += [dict(x, level='execution') for x in xdis]
+            # each comparison of the execution layer belongs to one property (request content C03, credentials C14, serde C04)
+            disagreements += [dict(x, level='execution') for x in xdis if prop in x.get('props', (prop,))]
             exec_part = dict(xstats, rule='crates emitted by the real CLI are built with driver programs that call every client method whose inputs are strings, integers, floats, booleans or lists of those, with sentinel arguments and 1-3 subsets of the optional setters, plus a copy of each generated example; every binary runs against the recording stand-in for httpclient with every environment variable lib.rs reads set to val_<NAME>; the recorded request is compared with Sem/Request.v run_operation on the same arguments (call drivers) and with the document (exactly one request, verb and path of the operation, base URL source, credentials of the first security requirement)')
         if det_layer:
             dstats, ddiffs = det_run(tier, seed, d)
@@ -732,7 +736,7 @@ def run(prop, tier, seed, extra_props=(), also_hir=False, compile_layer=False, d
         for cid, p, cls, msg, spec in findings:
             if p not in mine:
                 continue
-            if (p, cls) in known_map and not agrees_in_view(p, cid):
+            if (p, cls) in known_map and (cid, p, msg) in emission_findings and not agrees_in_view(p, cid):
                 cls = ''
             if (p, cls) in known_map:
                 known_seen.setdefault(known_map[(p, cls)], []).append((cid, msg))
